@@ -73,7 +73,7 @@ func newWsRig(x *Ctx, uutClient bool, onReady func(r *wsRig)) *wsRig {
 			x.HarnessError("uut websocket handshake: " + err.Error())
 			return
 		}
-		r.baseR, r.baseW = r.uc.NRead, r.uc.NWrite
+		r.baseR, r.baseW, _ = r.uc.Counts()
 		r.wc = ws.NewWebsocketConnection(c, "peerski")
 		close(r.ready)
 		if onReady != nil {
@@ -240,7 +240,7 @@ func setupC12(x *Ctx) {
 		case "peer-eof":
 			_ = rig.pc.Close()
 		case "write-fail":
-			rig.uc.FailWriteAt = rig.uc.NWrite + 1
+			rig.uc.FailNextWrite()
 		case "cut":
 			rig.uc.Cut()
 		case "stall":
